@@ -3,6 +3,7 @@ package vmshape
 import (
 	"fmt"
 	"go/types"
+	"os"
 	"sort"
 	"strings"
 
@@ -333,4 +334,68 @@ func (r *ruler) boundsRule() {
 	for _, k := range load.SortedKeys(unproved) {
 		r.s.Bad("V20", r.key(strings.SplitN(k, " / ", 2)[0], "unguarded "+strings.SplitN(k, " / ", 2)[1]), unproved[k].pos, "no comparison on this path establishes the bound of "+unproved[k].what+": for some operand value the expression indexes out of range and the Go runtime aborts the interpreter")
 	}
+}
+
+// errorExits (V21): which runtime errors an instruction may end the run with.
+// The table is the documented error behaviour (Readme "errors", the property
+// text of C05/C17): anything else an instruction reports is a new way for a
+// program to fail (a yield with no enclosing loop "only evaluates to its
+// operand"), and an error that disappears is covered by V10.
+var errorExits = map[string][]string{
+	"CALL": {"global value.ErrType", "global vm.ErrArity"}, "ATON": {"global value.ErrType", "global vm.ErrConversion"},
+	"MOV": {"global value.ErrNil"}, "JMPF": {"global value.ErrType"}, "JMPT": {"global value.ErrType"},
+	"READ": {"fmt.Errorf(\"read error"},
+}
+
+func (r *ruler) errorExits() {
+	isOperator := func(op string) bool {
+		_, ok := r.m.Effects()[op]
+		return ok
+	}
+	_ = isOperator
+	bad := 0
+	n := 0
+	for _, op := range r.ops() {
+		allowed, listed := errorExits[op]
+		for _, pa := range r.m.Paths[op] {
+			if pa.End != "return" || len(pa.Ret) != 2 || absint.IsNil(pa.Ret[1]) {
+				continue
+			}
+			ek := absint.Key(pa.Ret[1])
+			n++
+			// operator instructions hand on the error of the value method they call
+			fromMethod := false
+			for _, ev := range pa.Events {
+				if ev.Kind == "call" && strings.Contains(ev.Fn, "value.Type).") && strings.Contains(ev.Res, ek) {
+					fromMethod = true
+				}
+			}
+			if fromMethod {
+				continue
+			}
+			if os.Getenv("CALCSA_DUMP_V21") != "" {
+				fmt.Printf("v21 %s -> %s\n", op, ek)
+			}
+			ok := false
+			for _, a := range allowed {
+				if a == "*" || a == ek || strings.HasPrefix(ek, a) || strings.Contains(ek, a) {
+					ok = true
+				}
+			}
+			if !ok || !listed {
+				bad++
+				r.s.Bad("V21", r.key(op, "may end the run with "+short60(ek)), r.ppos(pa), "this instruction has no documented way of failing with that error (the errors an instruction can raise are part of the language: an operator's own error, a type error for a non-function / non-boolean / non-string, arity, conversion, nil assignment, read error); here it reports "+ek+" on its own", pa.Describe()...)
+			}
+		}
+	}
+	if bad == 0 {
+		r.s.OK("V21", "vm.Run / instructions fail only with their documented errors", r.pos, fmt.Sprintf("%d error exits examined: each is the error of the operator method called, or one of the instruction's documented errors", n))
+	}
+}
+
+func short60(s string) string {
+	if len(s) > 60 {
+		return s[:57] + "..."
+	}
+	return s
 }
